@@ -303,6 +303,77 @@ theorem no_stall_partial {cfg : Cfg} {s : State} (hr : Reachable cfg s) {t : Tid
       ∃ e, taskOf e = t ∧ e ≠ .cancel t ∧ (step s e).isSome = true) :=
   ⟨waiter_has_live_owner hr hT hF, bp_waiter_has_live_owner hr hT hF, running_task_can_step hr hT⟩
 
+/-! ### the wake-up is part of the drop glue
+
+The model has no separate notification: `wake` is enabled exactly when the entry the task is parked on is gone.
+The two theorems below make the cancellation / unwinding path explicit: removing the entry *is* waking its
+waiters.  In the code this is `ComputingLockGuard::drop` = `done()` = remove the entry **and**
+`notify_waiters()`; a `Drop` that only removes the entry contradicts them (the harness parks other callers on
+the entries of the task that is cut, `cancel.rs` fault mode `waiters`, and the driver requires the code's
+`cl.woken` for every waiter the model wakes). -/
+
+theorem owner_none_iff (c : Key → Option Entry) (k : Key) : owner c k = none ↔ c k = none := by
+  simp [owner]
+
+/-- **cancel_wakes_waiters**: the future of task `t` is dropped outside a guarded block while another task `w`
+    (never cancelled itself) is parked on a computing entry that `t` owns: in the state right after the drop glue
+    `w` can be woken (the entry is gone, `w` is still there). -/
+theorem cancel_wakes_waiters {cfg : Cfg} {s s' : State} (hr : Reachable cfg s) {t w : Tid} {T W : Task}
+    {top : Frame} {rest : List Frame} {e : Entry}
+    (hT : s.tasks t = some T) (hses : T.pc.isSession = false) (hg : T.pc.guarded = false)
+    (hc : step s (.cancel t) = some s')
+    (hwt : w ≠ t) (hW : s.tasks w = some W) (hF : W.frames = top :: rest) (hpc : W.pc = .waitC)
+    (he : s.comp top.key = some e) (ho : e.owner = t) :
+    (step s' (.wake w)).isSome = true := by
+  obtain ⟨T', hT', f, hf, hfl, hfk⟩ := entry_has_live_owner hr he
+  rw [ho, hT] at hT'
+  cases hT'
+  have hmem : top.key ∈ lockKeys T.frames := mem_lockKeys.mpr ⟨f, hf, hfl, hfk⟩
+  simp only [step, hT] at hc
+  split at hc
+  · cases hc
+    cases hfr : T.frames with
+    | nil => rw [hfr] at hf; cases hf
+    | cons f0 fs =>
+      have hcomp : (dropFrames (f0 :: fs) (dropBatch s T.batch).comp (dropBatch s T.batch).bpl).1 top.key = none := by
+        rw [← owner_none_iff, owner_dropFrames, ← hfr, if_pos hmem]
+      have htw : (cancelTask s t T).tasks w = some W := by
+        simp only [cancelTask, hses, hfr, hg]
+        cases hb : T.batch <;> simp [endTask, dropBatch, upd, hwt, hW]
+      have hcw : (cancelTask s t T).comp top.key = none := by
+        simp only [cancelTask, hses, hfr, hg]
+        simpa [endTask] using hcomp
+      simp [step, htw, hF, hpc, hcw]
+  · cases hc
+
+/-- the same for a panic: when the unwinding of task `t` passes the frame that owns the entry (`resume` drops the
+    innermost frame's `ComputingLockGuard`), a task parked on that entry can be woken -/
+theorem unwind_wakes_waiters {s s' : State} {t w : Tid} {T W : Task} {f : Frame} {fs : List Frame}
+    {top : Frame} {rest : List Frame}
+    (hT : s.tasks t = some T) (hfr : T.frames = f :: fs) (hl : f.lock = true)
+    (hc : step s (.resume t) = some s')
+    (hwt : w ≠ t) (hW : s.tasks w = some W) (hF : W.frames = top :: rest) (hpc : W.pc = .waitC)
+    (hk : f.key = top.key) :
+    (step s' (.wake w)).isSome = true := by
+  simp only [step, hT, hfr] at hc
+  split at hc
+  · have hcomp : (dropFrame f s.comp s.bpl).1 top.key = none := by
+      rw [← owner_none_iff, owner_dropFrame, if_pos ⟨hl, hk.symm⟩]
+    cases fs with
+    | nil =>
+      simp only at hc
+      cases hc
+      have htw : upd s.tasks t none w = some W := by simp [upd, hwt, hW]
+      simp [step, endTask, htw, hF, hpc, hcomp]
+    | cons g gs =>
+      simp only at hc
+      cases hc
+      simp [step, upd, hwt, hW, hF, hpc, hcomp]
+  · cases hc
+
+example : (run (init Cfg.fixed) [.spawn 0 3 false none, .lock 0, .spawn 1 3 false none, .waitC 1, .cancel 0, .wake 1, .lock 1]).map
+    (fun s => ((s.tasks 0).isNone, (s.comp 3).map (·.owner))) = some (true, some 1) := by decide
+
 /-- a future can be dropped at every await point: `cancel` is enabled for every live task that still has a caller -/
 theorem cancel_always_enabled {s : State} {t : Tid} {T : Task} (hT : s.tasks t = some T) (hd : T.detached = false) :
     (step s (.cancel t)).isSome = true := by
